@@ -22,6 +22,7 @@ import (
 	cid "github.com/ipfs/go-cid"
 	"github.com/ipfs/ipfs-cluster/api"
 	"github.com/ipfs/ipfs-cluster/consensus/crdt"
+	peer "github.com/libp2p/go-libp2p-core/peer"
 	"pgregory.net/rapid"
 )
 
@@ -443,7 +444,7 @@ func TestBatching(t *testing.T) {
 	})
 }
 
-const ruleConv = "2-3 real CRDT replicas (trust-all, some with batching) on loopback; a case is 1-3 phases, each = a connectivity graph owned by the harness (connection gater + close/connect) and 0-4 pin/unpin operations per replica over 3 CIDs; then full mesh, one marker pin per replica, and quiescence = every marker visible everywhere and listings unchanged over 3 polls spanning two rebroadcast intervals; oracle: all replicas hold the same pinset (CID set and stored pin per CID), and every CID in a replica's final pinset was handed to its tracker with the final content; non-trivial = a CID written on two replicas with an unpin among the writes while some link was down; distinct by script"
+const ruleConv = "2-3 real CRDT replicas (trusting everybody, or listing each other in trusted_peers before they have met; some with batching) on loopback; a case is 1-3 phases, each = a connectivity graph owned by the harness (connection gater + close/connect) and 0-4 pin/unpin operations per replica over 3 CIDs; then full mesh, one marker pin per replica, and quiescence = every marker visible everywhere and listings unchanged over 3 polls spanning two rebroadcast intervals; oracle: all replicas hold the same pinset (CID set and stored pin per CID), and every CID in a replica's final pinset was handed to its tracker with the final content; non-trivial = a CID written on two replicas with an unpin among the writes while some link was down; distinct by script"
 
 func TestConvergence(t *testing.T) {
 	leg := ev.L("convergence", ruleConv)
@@ -451,11 +452,18 @@ func TestConvergence(t *testing.T) {
 		n := rapid.IntRange(2, 3).Draw(t, "replicas")
 		name := fmt.Sprintf("verif-c02b-%d-%d", os.Getpid(), atomic.AddInt64(&caseN, 1))
 		var reps []*fakes.CRDTReplica
+		// trust: everybody ("*"), or the documented production form: each
+		// replica's trusted_peers lists the replicas by ID, written before
+		// the peers have ever met (no address of theirs is known at start)
+		listed := rapid.Bool().Draw(t, "trustedPeersListed")
 		for i := 0; i < n; i++ {
 			batch := rapid.IntRange(0, 2).Draw(t, "batching") == 0
 			reps = append(reps, fakes.NewCRDTReplica(gen.PeerKeys[i], func(c *crdt.Config) {
 				c.ClusterName = name
-				c.TrustAll = true
+				c.TrustAll = !listed
+				if listed {
+					c.TrustedPeers = append([]peer.ID(nil), gen.Peers[:n]...)
+				}
 				c.RebroadcastInterval = 250 * time.Millisecond
 				if batch {
 					c.Batching.MaxBatchSize = 3
@@ -469,6 +477,9 @@ func TestConvergence(t *testing.T) {
 			}
 		}()
 		var script []string
+		if listed {
+			script = append(script, "trusted_peers listed")
+		}
 		connected := map[[2]int]bool{}
 		setLink := func(i, j int, up bool) {
 			if i > j {
@@ -551,6 +562,17 @@ func TestConvergence(t *testing.T) {
 			}
 		}
 		script = append(script, "full mesh")
+		if listed {
+			// "peers that trust each other": the configuration says so, the
+			// replicas must agree (independent of any delivery timing)
+			for i := 0; i < n; i++ {
+				for j := 0; j < n; j++ {
+					if !reps[i].Cons.IsTrustedPeer(ctx, gen.Peers[j]) {
+						t.Fatalf("replica %d was configured with replica %d in its trusted_peers but does not trust it (IsTrustedPeer is false after they connected): their pinsets can never converge\nscript: %s", i, j, strings.Join(script, " ; "))
+					}
+				}
+			}
+		}
 		for i := 0; i < n; i++ {
 			m := api.PinCid(gen.Cids[8+i])
 			m.Name = fmt.Sprintf("marker%d", i)
